@@ -114,9 +114,13 @@ def run(tier, seed, replay=None):
             raise ToolError("reference format failed: " + r.stderr)
         new = {i: (ref / f"m{i}.rs").read_text() for i in (1, 2, 3)}
 
-        for proto in ("backup", "plain"):
-            flags = ["--backup"] if proto == "backup" else []
-            for changed, pre in scen:
+        # every way of asking for backups (the dedicated flag alone, next to an explicit
+        # `--emit files`, as a --config pair) must select the same protocol
+        protos = [("backup", ["--backup"], scen), ("plain", [], scen),
+                  ("backup", ["--emit", "files", "--backup"], scen[:2]),
+                  ("backup", ["--config", "make_backup=true"], scen[:2])]
+        for proto, flags, pscen in protos:
+            for changed, pre in pscen:
                 d = sc / "w"
                 orig = materialise(d, changed, new, pre)
                 disk0 = [{"f": "orig", "tmp": "stale" if "tmp" in PRES[pre] else "absent",
